@@ -23,12 +23,12 @@ fn calculate_view_dimensions<T>(start: Coordinate, end: Coordinate, toodee: &imp
         num_cols = 0;
         num_rows = 0;
     }
-    let data_start = start.1 * stride + start.0;
-    let data_len = {
+    // empty views use an empty range at the start of the data, so that the range is always in bounds
+    let (data_start, data_len) = {
         if num_rows == 0 {
-            0
+            (0, 0)
         } else {
-            (num_rows - 1) * stride + num_cols
+            (start.1 * stride + start.0, (num_rows - 1) * stride + num_cols)
         }
     };
     (num_cols, num_rows, data_start..data_start + data_len)
